@@ -50,6 +50,14 @@ func engineConcSearch(ctx *Ctx) {
 		dbName := fmt.Sprintf("gen-%d-%d", ctx.Shard, rd)
 		sp := vlib.DBSpec{N: []int{12, 40, 120}[rd%3], TieHeavy: rd%2 == 0, Platforms: 1, Pipelines: true}
 		cmds := vlib.GenCommands(r, sp)
+		if rd%2 == 1 && rd%3 != 1 {
+			// entries that hold no word at all (history expansions, a lone pipe, dots): they are entries, yet nothing about them is indexed
+			cmds = append(cmds, vlib.Cmd{Command: "!!"}, vlib.Cmd{Command: "$?", Description: "..."})
+			if rd%4 == 3 {
+				cmds = append([]vlib.Cmd{{Command: "|"}}, cmds...)
+			}
+			ctx.R.Path("rounds-on-a-database-with-entries-that-hold-no-word", 1)
+		}
 		mainP := filepath.Join(ctx.Scratch, fmt.Sprintf("cm%d.yml", rd))
 		persP := filepath.Join(ctx.Scratch, fmt.Sprintf("cp%d.yml", rd))
 		persCmds := vlib.GenCommands(r, vlib.DBSpec{N: 4})
